@@ -1,0 +1,16 @@
+//go:build verif
+// +build verif
+
+package bundler
+
+import (
+	"strconv"
+
+	"github.com/evanw/esbuild/internal/fs"
+)
+
+// The gate key of the linker goroutine of entry point "i" of the build whose
+// working directory is "fs.Cwd()"
+func verifLinkKey(fs fs.FS, i int) string {
+	return fs.Cwd() + "|" + strconv.Itoa(i)
+}
